@@ -2,6 +2,7 @@
 // and HierarchicalDensityPlacement::spreadCoordX/Y from /repo's working tree
 //   global gen gp SEED COUNT LEVEL      LEVEL 0 = quick (small circuits, efforts 1-3), 1 = thorough (larger, efforts 1-9)
 //   global gen gpn SEED COUNT LEVEL     circuits whose rows are all covered by fixed obstructions (no free capacity: finding F28)
+//   global gen gpf SEED COUNT LEVEL     circuits without any fixed cell translated to offsets 2^16 .. 2^22 (finding F30)
 //   global gen gpc SEED COUNT           circuits with EXACT coincidences (floating groups with centred pins, nets whose pins all
 //                                       coincide, stacked twin cells, no fixed pin at all), all four net models
 //   global gen spread SEED COUNT        dyadic spreading cases (every float operation of spreadCells is exact)
@@ -172,6 +173,27 @@ static void genGPN(SplitMix &g, long long count, int level) {
         t.cells.push_back(c);
       }
     }
+    printf("GP %s %s %s\n", showRowsCells(t).c_str(), showNets(t).c_str(), drawParams(g, level).c_str());
+  }
+}
+
+// circuits WITHOUT any fixed cell, placed far from the origin (finding F30): the first lower bound of such a circuit is at 0, the penalty
+// anchors are strength / distance with distance ~ the offset; rows and cells translated so that every coordinate stays <= 2^22
+static void genGPF(SplitMix &g, long long count, int level) {
+  static const long long offs[] = {1LL << 16, 1LL << 20, 1LL << 21, 3LL << 20, (1LL << 22)};
+  for (long long it = 0; it < count; ++it) {
+    TCircuit t = genGlobalCircuit(g, level);
+    long long maxX = LLONG_MIN, maxY = LLONG_MIN, minX = LLONG_MAX, minY = LLONG_MAX;
+    for (auto &r : t.rows) { minX = std::min(minX, r[0]); maxX = std::max(maxX, r[1]); minY = std::min(minY, r[2]); maxY = std::max(maxY, r[3]); }
+    for (auto &c : t.cells) {
+      c[6] = 0;                                                   // nothing fixed
+      if (std::llabs(c[0]) > 50000 || std::llabs(c[1]) > 50000) { c[0] = minX + g.uni(0, maxX - minX); c[1] = minY + g.uni(0, maxY - minY); }
+    }
+    long long ox = offs[g.uni(0, 4)], oy = g.coin(50) ? ox : offs[g.uni(0, 4)];
+    if (ox == (1LL << 22)) ox = (1LL << 22) - (maxX + 400) - g.uni(0, 40);   // the far end of the supported range
+    if (oy == (1LL << 22)) oy = (1LL << 22) - (maxY + 400) - g.uni(0, 40);
+    for (auto &r : t.rows) { r[0] += ox; r[1] += ox; r[2] += oy; r[3] += oy; }
+    for (auto &c : t.cells) { c[0] += ox; c[1] += oy; }
     printf("GP %s %s %s\n", showRowsCells(t).c_str(), showNets(t).c_str(), drawParams(g, level).c_str());
   }
 }
@@ -566,6 +588,7 @@ int main(int argc, char **argv) {
     if (what == "gp") genGP(g, count, argc > 5 ? atoi(argv[5]) : 0);
     else if (what == "gpc") genGPC(g, count);
     else if (what == "gpn") genGPN(g, count, argc > 5 ? atoi(argv[5]) : 0);
+    else if (what == "gpf") genGPF(g, count, argc > 5 ? atoi(argv[5]) : 0);
     else if (what == "grid") genGR(g, count);
     else if (what == "spread") genSP(g, count);
     else if (what == "spreadf") genSF(g, count);
